@@ -1,0 +1,79 @@
+//go:build verif
+
+package replication
+
+// Contract for the reader of the binary "SID block" form of a MySQL 5.6 GTID set (property C19).
+//
+// Layout: 8 bytes number of server ids; per server id 16 bytes id, 8 bytes number of intervals, per interval 8 bytes
+// start and 8 bytes end, the end stored exclusive (one past the last sequence number), all little endian.
+//
+// Decided: for every block with this layout whose intervals are ones the writer emits (1 <= start, start < stored
+// end as unsigned numbers — which includes the stored end 2^63 of an interval that ends at the largest sequence
+// number), decoding succeeds and every interval appended to the result is (start, stored end - 1) of the 16 bytes
+// just read, under the server id just read (ghost accumulation at the end of every inner iteration). Not decided:
+// that the result as a whole equals the set the block was written from (the writer iterates a map and sorts).
+
+import (
+	"bytes"
+
+	"github.com/Breeze0806/gobinlog/internal/vspec"
+)
+
+// position of the entry of server id i
+func specSIDEntry(data []byte, i int) int {
+	if i <= 0 {
+		return 8
+	}
+	p := specSIDEntry(data, i-1)
+	return p + 24 + 16*int(specLE64(data, p+16))
+}
+
+func specSIDCount(data []byte) int { return int(specLE64(data, 0)) }
+
+// the interval stored at p is one the writer emits
+func specSIDIntervalOK(data []byte, p int) bool {
+	return specLE64(data, p) >= 1 && specLE64(data, p) < specLE64(data, p+8)
+}
+
+func specSIDBlockOK(data []byte) bool {
+	if len(data) < 8 || specLE64(data, 0) > 1<<20 {
+		return false
+	}
+	n := specSIDCount(data)
+	return vspec.Forall(0, n, func(i int) bool {
+		p := specSIDEntry(data, i)
+		return p >= 8 && p <= len(data) && len(data)-p >= 24 && specLE64(data, p+16) <= 1<<24 &&
+			specSIDEntry(data, i+1) <= len(data) &&
+			vspec.Forall(0, int(specLE64(data, p+16)), func(j int) bool { return specSIDIntervalOK(data, p+24+16*j) })
+	})
+}
+
+// Ghost: every interval appended so far was the one just read.
+var vcSIDOK bool
+
+func vc_hook_entry_NewMysql56GTIDSetFromSIDBlock(data []byte) { vcSIDOK = true }
+
+// end of an inner iteration: the last interval of the current server id's list is the 16 bytes just consumed
+func vc_hook_loopstep_NewMysql56GTIDSetFromSIDBlock_2(set Mysql56GTIDSet, sid SID, buf *bytes.Reader, data []byte) {
+	ivs := set[sid]
+	p := vspec.ReaderPos(buf) - 16
+	vcSIDOK = vcSIDOK && len(ivs) >= 1 &&
+		uint64(ivs[len(ivs)-1].start) == specLE64(data, p) && uint64(ivs[len(ivs)-1].end) == specLE64(data, p+8)-1
+}
+
+func vc_NewMysql56GTIDSetFromSIDBlock_requires(data []byte) bool { return specSIDBlockOK(data) }
+
+func vc_NewMysql56GTIDSetFromSIDBlock_loop1_inv(i uint64, nSIDs uint64, buf *bytes.Reader, data []byte, set Mysql56GTIDSet) bool {
+	return nSIDs == specLE64(data, 0) && i <= nSIDs && vspec.ReaderPos(buf) == specSIDEntry(data, int(i)) &&
+		vspec.Owned(set) && vcSIDOK
+}
+
+func vc_NewMysql56GTIDSetFromSIDBlock_loop2_inv(i uint64, j uint64, nSIDs uint64, nIntervals uint64, buf *bytes.Reader, data []byte, set Mysql56GTIDSet) bool {
+	p := specSIDEntry(data, int(i))
+	return i < nSIDs && nIntervals == specLE64(data, p+16) && j <= nIntervals &&
+		vspec.ReaderPos(buf) == p+24+16*int(j) && vspec.Owned(set) && vcSIDOK
+}
+
+func vc_NewMysql56GTIDSetFromSIDBlock_ensures_decoded(data []byte, out Mysql56GTIDSet, err error) bool {
+	return err == nil && vcSIDOK
+}
